@@ -230,3 +230,20 @@ def run_sizes(task):
                                      "mode": MODE})
     res["wall"] = time.time() - t0
     return res
+
+
+def replay_capacity(task):
+    w = task["witness"]
+    fails = []
+    if "stack_case" in w:
+        c = w["stack_case"]
+        rec = stack_case(c["height"], c["depth"], c["heuristic"], c["calg"])
+        bad = judge_stack(rec)
+        if bad:
+            fails.append({"kind": bad, "detail": rec.get("detail", "")})
+    elif "size_case" in w:
+        c = w["size_case"]
+        rec = size_case(c["kind"], c["n"])
+        if rec["outcome"] == "wrong":
+            fails.append({"kind": "silent_wrong_answer_at_index_type_limit", "detail": rec.get("detail", "")})
+    return {"fails": fails}
